@@ -251,7 +251,7 @@ Definition log_select (q : strsel) (c : pctx) : option select :=
    A line travels through the stages with a state: its current label map and its current stream
    fingerprint. `| json l="path", ...` writes the extracted values over the label map (an extraction that
    finds nothing writes "", as mapUpdate does) and re-fingerprints the line with the hash of the new map;
-   `| drop` removes labels (the fingerprint stays); filters read the CURRENT map / the line text. *)
+   `| drop` removes labels and re-fingerprints the line likewise; filters read the CURRENT map / the line text. *)
 Definition drop_spec (p : string * option string) : string * option string :=
   (fst p, match snd p with Some v => if String.eqb v "" then None else Some v | None => None end).
 
@@ -269,8 +269,11 @@ Section SEM2.
       Some {| p_labels := ls; p_fp := hash_labels ls |}
     | None => None
     end.
+  (* since the repair of drop-keeps-fingerprint (/repo: PlannerDrop patches the fingerprint column like ParserPlanner) a drop
+     re-fingerprints the line with the hash of the remaining labels *)
   Definition drop_stage (ps : list (string * option string)) (st : pstate) : pstate :=
-    {| p_labels := filter (drop_keeps (map drop_spec ps)) (p_labels st); p_fp := p_fp st |}.
+    let ls := filter (drop_keeps (map drop_spec ps)) (p_labels st) in
+    {| p_labels := ls; p_fp := hash_labels ls |}.
   (* None = the line is filtered out (or the stage is outside the modelled pipeline) *)
   Fixpoint run_stages (ppl : list stage) (line : string) (st : pstate) : option pstate :=
     match ppl with
